@@ -127,13 +127,18 @@ def run_all(run):
         ro = r - 1
         o1 = rng.randrange(0, ro + 1) if rng.random() < 0.7 else rng.randrange(-(ro + 1), 0)
         o2 = rng.randrange(0, ro + 1)
-        form = rng.choice(["td_tensor", "td_td", "tensor_only", "dict"])
+        form = rng.choice(["td_tensor", "td_td", "tensor_only", "dict", "const_td", "const_mixed"])
+        const = G.make_td(tuple(b[:i % r] + b[i % r + 1:])).apply(lambda x: x + 5)      # an un-batched tensordict captured by the function
         if form == "td_tensor":
             f, od = (lambda t: (t.apply(lambda x: x * 2), t["b"] + 1)), (o1, o2)
         elif form == "td_td":
             f, od = (lambda t: (t.select("a"), t.exclude("a"))), (o1, o2)
         elif form == "tensor_only":
             f, od = (lambda t: t["a"] * 2), o2
+        elif form == "const_td":
+            f, od = (lambda t, const=const: const), o2
+        elif form == "const_mixed":
+            f, od = (lambda t, const=const: (t.apply(lambda x, y: x + y, const), const)), (o1, o2)
         else:
             f, od = (lambda t: (t, t["n", "x"])), (o1, o2)
         judge(run, "ext.outputs", {"batch": list(b), "in_dim": i, "out_dims": list(od) if isinstance(od, tuple) else od, "form": form}, f, i, od, (td,), form)
@@ -172,6 +177,12 @@ def run_all(run):
         # the access pattern lazy stacks support along their stack dimension: read entries, return tensors
         g = lambda t: (t.get("a") * 2 + 1, t.get(("n", "x")) - 1)
         judge(run, "ext.lazy_get", {"batch": list(b), "in_dim": i, "out_dim": 0}, g, i, 0, (td,), "lazy_get")
+        # ... and write an entry computed from a read one (hook_in un-batches it into the stacked tensordicts)
+        keys_before = sorted(map(str, td.keys(True, True)))
+        h = lambda t: t.clone(False).set("z", t.get("a") * 2) if not isinstance(t, LazyStackedTensorDict) or getattr(t, "hook_in", None) is None else t.set("z", t.get("a") * 2)
+        judge(run, "ext.lazy_set", {"batch": list(b), "in_dim": i, "out_dim": 0}, h, i, 0, (td,), "lazy_set")
+        if sorted(map(str, td.keys(True, True))) != keys_before:
+            run.oracle_fail("ext.lazy_set", {"batch": list(b), "in_dim": i}, "the vmapped function's set() leaked a new entry into the input lazy stack", fingerprint="lazy_set_leak")
     # ---- (e) locked inputs reused across calls with in-place writes in between (memoised _add_batch_dim)
     for _ in range(max(10, n // 2)):
         b = rng.choice([(2, 3), (2, 3, 2), (3, 2)])
